@@ -130,9 +130,31 @@ def run(ctx):
     # equality of the two builtin lists split off the signature, the two predicates, the subsequence `all`), not by names
     for key, marker in (("input==output builtins", ["c:eq", "f:0", "f:1"]),
                         ("is_felt252_span", ["c:is_felt252_span"]),
-                        ("is_valid_entry_point_return_type", ["c:is_valid_entry_point_return_type"]),
-                        ("builtin-subsequence", ["c:all"])):
+                        ("is_valid_entry_point_return_type", ["c:is_valid_entry_point_return_type"])):
         g("R19.1", "entry-point:require:" + key, vep, CallResult("require", "Break", arg=marker), bypass="auto")
+    # the builtins must be a *strictly* increasing selection of the protocol order (no repetition): either the stateful
+    # subsequence test (`all` over the builtins advancing one iterator over the order with `any`), or strictly sorted
+    # positions (is_sorted_by with a strict comparison / windows(2).all(a < b))
+    vgroup = [vep] + [f for f in F.closures_of(main) if f.path.startswith(vep.path + "::{closure")]
+    names_in = {c.name() for f in vgroup for c in f.calls()}
+    r_sub = check_guard(vep, CallResult("require", "Break", arg=["c:all"]), bypass="auto")
+    form = None
+    if r_sub.ok and "any" in names_in:
+        form = "stateful subsequence test (all / any over one iterator of the order)"
+    elif r_sub.ok and "windows" in names_in and ("lt" in names_in or any(st[0] == "a" and st[2][0] == "bin" and st[2][1] == "Lt" for f in vgroup for _, _, st in f.stmts())):
+        form = "strictly increasing positions (windows(2).all(a < b))"
+    else:
+        r2 = check_guard(vep, CallResult("require", "Break", arg=["c:is_sorted_by"]), bypass="auto")
+        strict = any(st[0] == "a" and st[2][0] == "bin" and st[2][1] == "Lt" for f in vgroup for _, _, st in f.stmts()) or "lt" in names_in
+        if r2.ok and strict:
+            form = "strictly increasing positions (is_sorted_by with `<`)"
+    nonstrict = [c for f in vgroup for c in f.calls() if c.name() in ("is_sorted", "is_sorted_by_key")]
+    ctx.analysed(vep)
+    ctx.ob("R19.1", "entry-point:require:builtin-subsequence", form is not None,
+           "builtins are checked to be a strictly increasing selection of ENTRY_POINT_BUILTIN_ORDER: %s" % form if form else
+           ("the order of the builtins is tested with `%s`, which accepts equal neighbours: an entry point may repeat a builtin" % nonstrict[0].name()
+            if nonstrict else "no strict order / subsequence test of the builtins against ENTRY_POINT_BUILTIN_ORDER rejects with `?`: " + r_sub.msg),
+           (nonstrict[0].where() if nonstrict else vep.where(r_sub.line)))
     g("R19.1", "entry-point:builtin-in-table", vep, CallResult("::contains", False, arg="c:get_generic_id"),
       err=(SSCE, "InvalidBuiltinType"))
     for nm, ty in (("system_ty", "SystemType"), ("gas_ty", "GasBuiltinType")):
